@@ -147,6 +147,16 @@ static void c01_run(int tier, long cfg)
   hx_desc("h_c01|ending=%s|hist=%s", es, hs);
   hx_begin();
   vk_set_hang_hook(c01_hang);
+  {
+    /* a free run can be compared with the default stepped schedule unless it depends on how fast a signal kills: a signalling
+     * operation followed by a zero-timeout look at the child */
+    int sig_seen = 0, racy = 0;
+    for (int i = 0; i < nops; i++) {
+      if (sig_seen && (ops[i] == OP_WAIT0 || ops[i] == OP_STOP_W0)) racy = 1;
+      if (ops[i] == OP_TERM || ops[i] == OP_KILL) sig_seen = 1;
+    }
+    S->free_run_ok = !racy;
+  }
   char script[64] = "";
   switch (en.kind) {
     case E_CODE: snprintf(script, sizeof script, "X%d", en.v); break;
@@ -193,8 +203,17 @@ static void c01_run(int tier, long cfg)
   }
   vk_faults_armed = 0;
   /* closure: make the child end, collect the status, check stability and the reap count */
-  if (CH->state == CH_RUNNING) {
-    if (vk_child_enabled(CH)) vk_child_step(CH);
+  if (vk_cfg.passthru) {
+    /* free run: the helper follows its script by itself; it ends on its own unless it waits for a SIGTERM that was never sent */
+    int term_sent = 0;
+    for (int i = 0; i < CH->nsigs; i++) term_sent |= CH->sigs[i].sig == SIGTERM || CH->sigs[i].sig == SIGKILL;
+    int ends_by_itself = en.kind == E_CODE || en.kind == E_SIG || en.kind == E_HUP_FIRST || (en.kind == E_HANDLER && term_sent);
+    if (!ends_by_itself && CH->state != CH_REAPED) {
+      kill(CH->pid, SIGKILL);
+      if (CH->expect_status < 0) CH->expect_status = 128 + SIGKILL;
+    }
+  } else if (CH->state == CH_RUNNING) {
+    for (int g = 0; g < 8 && CH->state == CH_RUNNING && vk_child_enabled(CH); g++) vk_child_step(CH);
     if (CH->state == CH_RUNNING) {
       /* harness-side kill, outside the library */
       kill(CH->pid, SIGKILL);
@@ -235,4 +254,4 @@ static void c01_run(int tier, long cfg)
       vk_violation("C06", "signal-after-reap", "h_c01", "signal %d was sent after the child had been reaped", CH->sigs[i].sig);
 }
 
-const struct hx_harness h_c01 = { "C01", "h_c01", c01_nconfigs, c01_run, c01_clauses, NULL };
+const struct hx_harness h_c01 = { "C01", "h_c01", c01_nconfigs, c01_run, c01_clauses, NULL, 0, { 0, 0 }, 0, 23 };
